@@ -224,7 +224,47 @@ def worker_samples(cfg, tier):
     o = cg.prove_with_replay("gaussian_samples within [u_min, u_max] for every mean/stdev/noise", cfg, it, tr, flat, pre_of(so), goal,
                              "cem:sample-bounds", "a CEM candidate lies outside the given bounds", grid=(-8, 8))
     v, m, s = smt.satisfiable(pre_of(so), 10)
-    return [o, Ob("twin.bounds_satisfiable", v, s, cfg, kind="vacuity")]
+    obs = [o, Ob("twin.bounds_satisfiable", v, s, cfg, kind="vacuity")]
+    # mixed precision: search mean/stdev kept in float16, bounds in float32.  Reals cannot see rounding, so every narrowing float conversion in the jaxpr is
+    # modelled as an uninterpreted function: the candidate is within the bounds only if nothing is rounded *after* the clip
+    import jax.numpy as jnp
+    st16 = state.replace(mean=jax.tree_util.tree_map(lambda x: x.astype(jnp.float16), state.mean), stdev=jax.tree_util.tree_map(lambda x: x.astype(jnp.float16), state.stdev))
+    it2 = jx.Interp(name_handlers={"_normal": normal_oracle})
+    it2.model_narrowing = True
+    tr2 = jx.Traced(lambda so, st, k: gaussian_samples(so, st, k), solver, st16, jax.random.PRNGKey(0))
+    flat2 = tr2.sym_inputs(it2, "h")
+    so2, st2, k2 = tr2.in_pytree(flat2)
+    out2 = tr2.run(it2, flat2)
+    v, m, s = smt.check(pre_of(so2), goal((so2, st2, k2), out2), 60)
+    o2 = Ob("gaussian_samples within [u_min, u_max] when mean/stdev are float16 and the bounds float32 (no rounding after the clip)", v, s, dict(cfg, mean_dtype="float16"), key="cem:sample-bounds-mixed",
+            what="a CEM candidate is rounded to a narrower float format after it was clipped: it can leave [u_min, u_max] by one unit in the last place")
+    if v == "sat":
+        o2.replayed = _replay_mixed(cfg)
+    obs.append(o2)
+    return obs
+
+
+def _replay_mixed(cfg):
+    """real gaussian_samples with a float16 search distribution far above a float32 bound that float16 cannot represent: the clipped candidate must not exceed it"""
+    import jax
+    import jax.numpy as jnp
+    import numpy as onp
+    from rex.cem import CEMSolver, CEMState, gaussian_samples
+
+    try:
+        shp = {"a": (), "b": (2,)}
+        u = lambda v, dt: {k: jnp.full(shp[k], v, dt) for k in cfg["leaves"]}
+        solver = CEMSolver.init(u_min=u(-0.3, jnp.float32), u_max=u(0.3, jnp.float32), num_samples=4, evolution_smoothing=jnp.float32(0.1), elite_portion=0.5)
+        for centre in (10.0, -10.0):
+            st = CEMState(mean=u(centre, jnp.float16), stdev=u(0.0, jnp.float16), bestsofar=u(0.0, jnp.float16), bestsofar_loss=jnp.float32(onp.inf))
+            smp = gaussian_samples(solver, st, jax.random.PRNGKey(0))
+            for k in smp:
+                x = onp.asarray(smp[k], onp.float64)
+                if (x > onp.float64(onp.float32(0.3))).any() or (x < -onp.float64(onp.float32(0.3))).any():
+                    return True
+        return False
+    except BaseException:  # noqa
+        return None
 
 
 def worker_cem_step(cfg, tier):
